@@ -252,7 +252,9 @@ def world_violation(pid, r):
         # unregistered component - is not a divergence)
         return "implementation panicked or produced an undecodable output where the model does not"
     pos, code = r["acc_pos"], r["acc_code"]
-    op = r["hist"][pos][0] if 0 <= pos < len(r["hist"]) else None
+    # the code of the rejected operation as the model reports it (positions count performed operations,
+    # which differ from history positions when lazy actions are involved)
+    op = r["extra"][1] if len(r.get("extra", [])) >= 2 and code != 0 else None
     if pid == "C01":
         if not r["c01d"]:
             return "a handle was returned twice, or two entities reported alive share an index"
